@@ -219,24 +219,46 @@ def _fb_spec(c, MIN, MAX, F, G, Wd, N, B):
         s = start(q)
         return c.Sum(0, nwin(q), lambda i: wt(q, s + i))
 
-    def val(q):
+    def val(q, m=None):
         s = start(q)
         sw = SW(q)
-        return c.Sum(0, nwin(q), lambda i: wt(q, s + i) / sw * F[s + i])
+        return c.Sum(0, nwin(q), lambda i: wt(q, s + i) / sw * (F[s + i] if m is None else F[m, s + i]))
     if c.mode == 'sym':
         srt = c.uf['fb_axioms']
-    def noise(q, E):
+    def noise(q, E, m=None):
         s = start(q)
         sw = SW(q)
-        return c.sqrt(c.Sum(0, nwin(q), lambda i: wt(q, s + i) * wt(q, s + i) * (E[s + i] * E[s + i])) / sw / sw)
+        e = (lambda j: E[j]) if m is None else (lambda j: E[m, j])
+        return c.sqrt(c.Sum(0, nwin(q), lambda i: wt(q, s + i) * wt(q, s + i) * (e(s + i) * e(s + i))) / sw / sw)
     return dict(noise=noise, sorted=srt, ST=ST, SP=SP, lo=lo, hi=hi, start=start, stop=stop, wt=wt, overl=overl, nwin=nwin, SW=SW, val=val)
 
 
 def _fbd_params(c):
     N, B = c.int('N'), c.int('B')
-    err, wid = c.choice('errors'), c.choice('widths')
+    err, wid, dim = c.choice('errors'), c.choice('widths'), c.choice('dim')
+    shp = (N,) if dim == 1 else (c.int('M'), N)
     return dict(self=ObjSpec('FluxBinner', _wngrid=c.array('g', (B,)), _wngrid_width=c.array('w', (B,))), wngrid=c.array('wn', (N,)),
-                spectrum=c.array('f', (N,)), grid_width=c.array('wd', (N,)) if wid == 'given' else None, error=c.array('e', (N,)) if err else None)
+                spectrum=c.array('f', shp), grid_width=c.array('wd', (N,)) if wid == 'given' else None, error=c.array('e', shp) if err else None)
+
+
+def _rows(c, a):
+    """None for a 1-D spectrum, the number of rows for a 2-D one (the spectral axis is the last one)"""
+    sh = c.Shape(a)
+    return None if len(sh) == 1 else sh[0]
+
+
+def _shape_ok(c, a, M, N):
+    sh = c.Shape(a)
+    return (sh[0] == N) if M is None else c.And(sh[0] == M, sh[1] == N)
+
+
+def _all_rows(c, M, f):
+    """f(m) for the single row of a 1-D spectrum (m = None) or for every row of a 2-D one"""
+    return f(None) if M is None else c.Forall(0, M, f)
+
+
+def _at(A, m, j):
+    return A[j] if m is None else A[m, j]
 
 
 def _derived_width(c, wn, N, j):
@@ -258,14 +280,16 @@ def _fbd_pre(c, v):
         # widths derived from the grid itself (the usual call on a model's native grid): ascending input, and the derived
         # bin edges ordered like the centres (constant-R, linear, logarithmic grids; not wildly irregular ones)
         W = lambda j: _derived_width(c, wn, N, j)
-        return {'sizes': c.And(N >= 2, B >= 0, c.Len(v.spectrum) == N, c.Len(v.self._wngrid_width) == B,
-                               (c.Len(v.error) == N) if v.error is not None else True),
+        M = _rows(c, v.spectrum)
+        return {'sizes': c.And(N >= 2, B >= 0, _shape_ok(c, v.spectrum, M, N), c.Len(v.self._wngrid_width) == B, (M >= 1) if M is not None else True,
+                               _shape_ok(c, v.error, M, N) if v.error is not None else True),
                 'native_grid_ascending': c.Forall2((0, N), (0, N), lambda i, j: c.Implies(i < j, wn[i] < wn[j])),
                 'derived_bin_edges_ordered_like_the_centres': c.Forall(0, N - 1, lambda j: c.And(
                     wn[j] - W(j) / 2 <= wn[j + 1] - W(j + 1) / 2, wn[j] + W(j) / 2 <= wn[j + 1] + W(j + 1) / 2)),
                 'target_widths_positive': c.Forall(0, B, lambda q: v.self._wngrid_width[q] > 0)}
-    return {'sizes': c.And(N >= 1, B >= 0, c.Len(v.spectrum) == N, c.Len(wd) == N, c.Len(v.self._wngrid_width) == B,
-                           (c.Len(v.error) == N) if v.error is not None else True),
+    M = _rows(c, v.spectrum)
+    return {'sizes': c.And(N >= 1, B >= 0, _shape_ok(c, v.spectrum, M, N), c.Len(wd) == N, c.Len(v.self._wngrid_width) == B,
+                           (M >= 1) if M is not None else True, _shape_ok(c, v.error, M, N) if v.error is not None else True),
             'native_widths_non_negative': c.Forall(0, N, lambda i: wd[i] >= 0),
             # distinct centres whose lower and upper edges are ordered like the centres (true for non-overlapping bins, and for
             # the slightly overlapping bins np.diff-derived widths give on non-uniform grids)
@@ -293,7 +317,11 @@ def _fbd_sorted(c, v0):
 
         def __getitem__(s_, j):
             return s_.fn(j)
-    return (_A(lambda j: wn[pf(j)] - wd[pf(j)] / 2), _A(lambda j: wn[pf(j)] + wd[pf(j)] / 2), _A(lambda j: f[pf(j)]))
+    def fget(j):
+        if isinstance(j, tuple):
+            return f[j[0], pf(j[1])]
+        return f[pf(j)]
+    return (_A(lambda j: wn[pf(j)] - wd[pf(j)] / 2), _A(lambda j: wn[pf(j)] + wd[pf(j)] / 2), _A(fget))
 
 
 def _fbd_inv(c, v, v0, k):
@@ -303,26 +331,34 @@ def _fbd_inv(c, v, v0, k):
     S = _fb_spec(c, MIN, MAX, F, G, Wd, N, B)
     BS = v.bin_spectrum
     sort = v.sorted_input
-    d = {'locals': c.And(c.Len(BS) == B, c.Len(MIN) == N, c.Len(MAX) == N, c.Len(F) == N, c.Len(v.new_spec_wn) == B,
+    M = _rows(c, v0.spectrum)
+    d = {'locals': c.And(_shape_ok(c, BS, M, B), c.Len(MIN) == N, c.Len(MAX) == N, _shape_ok(c, F, M, N), c.Len(v.new_spec_wn) == B,
                          c.Len(v.new_spec_wn_min) == B, c.Len(v.new_spec_wn_max) == B,
                          (v.error is None and v.bin_error is None) if v0.error is None else
-                         c.And(c.Len(v.bin_error) == B, c.Len(v.old_spect_err) == N)),
+                         c.And(_shape_ok(c, v.bin_error, M, B), _shape_ok(c, v.old_spect_err, M, N))),
          'target_bins': c.Forall(0, B, lambda q: c.And(v.new_spec_wn_min[q] == S['lo'](q), v.new_spec_wn_max[q] == S['hi'](q))),
          'native_bins': c.Forall(0, N, lambda j: c.And(MIN[j] == v0.wngrid[sort[j]] - v0.grid_width[sort[j]] / 2,
                                                        MAX[j] == v0.wngrid[sort[j]] + v0.grid_width[sort[j]] / 2,
-                                                       F[j] == v0.spectrum[sort[j]])) if v0.grid_width is not None else
+                                                       _all_rows(c, M, lambda m: _at(F, m, j) == _at(v0.spectrum, m, sort[j]))))
+         if v0.grid_width is not None else
          c.Forall(0, N, lambda j: c.And(sort[j] == j, MIN[j] == v0.wngrid[j] - _derived_width(c, v0.wngrid, N, j) / 2,
-                                        MAX[j] == v0.wngrid[j] + _derived_width(c, v0.wngrid, N, j) / 2, F[j] == v0.spectrum[j])),
+                                        MAX[j] == v0.wngrid[j] + _derived_width(c, v0.wngrid, N, j) / 2,
+                                        _all_rows(c, M, lambda m: _at(F, m, j) == _at(v0.spectrum, m, j)))),
          'native_bins_sorted': c.And(c.Forall(0, N - 1, lambda j: c.And(MAX[j] <= MAX[j + 1], MIN[j] <= MIN[j + 1])),
                                      c.Forall(0, N, lambda j: MIN[j] <= MAX[j])),
-         'todo': c.Forall(k, B, lambda q: BS[q] == 0)}
+         'todo': c.Forall(k, B, lambda q: _all_rows(c, M, lambda m: _at(BS, m, q) == 0))}
+    if v0.grid_width is None and c.mode == 'sym' and not getattr(c, 'assuming', False):
+        # follows from the precondition on the derived edges and the clause just above: nothing else is needed
+        d['native_bins_sorted'] = c.scope(d['native_bins_sorted'], 'pre.*', 'acc.native_bins', 'acc.locals', 'inv0.native_bins', 'inv0.locals',
+                                          'inv0.native_bins_sorted')
     if v0.error is not None:
         E, BE = v.old_spect_err, v.bin_error
-        d['native_errors'] = c.Forall(0, N, lambda j: E[j] == v0.error[sort[j]])
-        d['todo_errors'] = c.Forall(k, B, lambda q: BE[q] == 0)
-        row = lambda q: c.And(BS[q] == c.If(S['overl'](q), S['val'](q), 0), BE[q] == c.If(S['overl'](q), S['noise'](q, E), 0))
+        d['native_errors'] = c.Forall(0, N, lambda j: _all_rows(c, M, lambda m: _at(E, m, j) == _at(v0.error, m, sort[j])))
+        d['todo_errors'] = c.Forall(k, B, lambda q: _all_rows(c, M, lambda m: _at(BE, m, q) == 0))
+        row = lambda q: _all_rows(c, M, lambda m: c.And(_at(BS, m, q) == c.If(S['overl'](q), S['val'](q, m), 0),
+                                                        _at(BE, m, q) == c.If(S['overl'](q), S['noise'](q, E, m), 0)))
     else:
-        row = lambda q: BS[q] == c.If(S['overl'](q), S['val'](q), 0)
+        row = lambda q: _all_rows(c, M, lambda m: _at(BS, m, q) == c.If(S['overl'](q), S['val'](q, m), 0))
     done = c.Forall(0, k, row)
     if c.mode == 'sym' and not getattr(c, 'assuming', False) and v.has('save_start') and len(getattr(c, 'ss_results', [])) >= 2:
         last = z3.simplify(k - 1)
@@ -351,6 +387,7 @@ def _fbd_inv(c, v, v0, k):
 def _fbd_post(c, v0, v1, r):
     N, B = c.Len(v0.wngrid), c.Len(v0.self._wngrid)
     G, Wd = v0.self._wngrid, v0.self._wngrid_width
+    M = _rows(c, v0.spectrum)
     if c.mode == 'conc':
         import numpy as np
         p = np.argsort(np.array(v0.wngrid, dtype=float))
@@ -359,12 +396,10 @@ def _fbd_post(c, v0, v1, r):
             wdl = [_derived_width(c, wn0, N, j) for j in range(N)]
         else:
             wdl = v0.grid_width
-        wn, wd, f = (np.array(x, dtype=float)[p] for x in (v0.wngrid, wdl, v0.spectrum))
-
-        class _L(list):
-            pass
-        MIN, MAX, F = list(wn - wd / 2), list(wn + wd / 2), list(f)
-        E = None if v0.error is None else list(np.array(v0.error, dtype=float)[p])
+        wn, wd = (np.array(x, dtype=float)[p] for x in (v0.wngrid, wdl))
+        MIN, MAX = list(wn - wd / 2), list(wn + wd / 2)
+        F = np.array(v0.spectrum, dtype=float)[..., p]
+        E = None if v0.error is None else np.array(v0.error, dtype=float)[..., p]
     elif v0.grid_width is None and c.mode == 'sym':
         # derived widths: the statement is made in two steps -- the formula over the function's own sorted bin arrays (ghost
         # access to the locals), and those arrays being the documented bins (clause native_bins_are_the_documented_ones);
@@ -378,11 +413,11 @@ def _fbd_post(c, v0, v1, r):
         E = None
         if v0.error is not None:
             pf = c.last_perm[0]
-            E = type(F)(lambda j: v0.error[pf(j)])
+            E = type(F)(lambda j: v0.error[j[0], pf(j[1])] if isinstance(j, tuple) else v0.error[pf(j)])
     S = _fb_spec(c, MIN, MAX, F, G, Wd, N, B)
     out = r[1]
-    d = {'returns_grid_spectrum_errors_widths': c.And(c.Len(r[0]) == B, c.Len(out) == B, (r[2] is None) if v0.error is None else (c.Len(r[2]) == B),
-                                                      c.Len(r[3]) == B)}
+    d = {'returns_grid_spectrum_errors_widths': c.And(c.Len(r[0]) == B, _shape_ok(c, out, M, B),
+                                                      (r[2] is None) if v0.error is None else _shape_ok(c, r[2], M, B), c.Len(r[3]) == B)}
     if c.mode == 'bmc':
         return d
     # The claim is about target bins that overlap the native grid in positive length (total overlap SW > 0); what is
@@ -391,28 +426,29 @@ def _fbd_post(c, v0, v1, r):
         return c.And(S['overl'](q), S['nwin'](q) > 0, S['SW'](q) > 0) if c.mode != 'conc' else \
             (S['overl'](q) and S['nwin'](q) > 0 and S['SW'](q) > 1e-12)
     if c.mode == 'conc':
-        ok = True
+        rows = [None] if M is None else list(range(M))
+        ok = oke = True
         for q in range(B):
             if meets(q):
-                want = S['val'](q)
-                ok = ok and abs(out[q] - want) <= 1e-9 * max(1.0, abs(want))
+                for m in rows:
+                    want = S['val'](q, m)
+                    ok = ok and abs(_at(out, m, q) - want) <= 1e-9 * max(1.0, abs(want))
+                    if E is not None:
+                        want = S['noise'](q, E, m)
+                        oke = oke and abs(_at(r[2], m, q) - want) <= 1e-9 * max(1.0, abs(want))
         d['overlap_weighted_mean_of_the_window'] = ok
         if E is not None:
-            ok = True
-            for q in range(B):
-                if meets(q):
-                    want = S['noise'](q, E)
-                    ok = ok and abs(r[2][q] - want) <= 1e-9 * max(1.0, abs(want))
-            d['errors_with_the_same_weights_in_quadrature'] = ok
+            d['errors_with_the_same_weights_in_quadrature'] = oke
         return d
     if v0.grid_width is None:
         wn = v0.wngrid
         d['native_bins_are_the_documented_ones'] = c.Forall(0, N, lambda j: c.And(
-            MIN[j] == wn[j] - _derived_width(c, wn, N, j) / 2, MAX[j] == wn[j] + _derived_width(c, wn, N, j) / 2, F[j] == v0.spectrum[j],
-            (E[j] == v0.error[j]) if E is not None else True))
-    d['overlap_weighted_mean_of_the_window'] = c.Forall(0, B, lambda q: c.Implies(meets(q), out[q] == S['val'](q)))
+            MIN[j] == wn[j] - _derived_width(c, wn, N, j) / 2, MAX[j] == wn[j] + _derived_width(c, wn, N, j) / 2,
+            _all_rows(c, M, lambda m: c.And(_at(F, m, j) == _at(v0.spectrum, m, j), (_at(E, m, j) == _at(v0.error, m, j)) if E is not None else True))))
+    d['overlap_weighted_mean_of_the_window'] = c.Forall(0, B, lambda q: c.Implies(meets(q), _all_rows(c, M, lambda m: _at(out, m, q) == S['val'](q, m))))
     if E is not None:
-        d['errors_with_the_same_weights_in_quadrature'] = c.Forall(0, B, lambda q: c.Implies(meets(q), r[2][q] == S['noise'](q, E)))
+        d['errors_with_the_same_weights_in_quadrature'] = c.Forall(0, B, lambda q: c.Implies(meets(q), _all_rows(
+            c, M, lambda m: _at(r[2], m, q) == S['noise'](q, E, m))))
     return d
 
 
@@ -447,6 +483,7 @@ def _fbd_gen(rng):
     g = sorted(rng.uniform(50, 1100) for _ in range(B))
     d = dict(N=N, B=B, wn=wn, wd=wd, f=[rng.uniform(0, 1) for _ in range(N)], g=g, w=[rng.uniform(1, 300) for _ in range(B)],
              errors=rng.random() < 0.5, e=[rng.uniform(0.01, 0.2) for _ in range(N)], widths='given')
+    d['dim'] = 1
     if rng.random() < 0.5:
         N = max(N, 2)
         kind = rng.choice(['linear', 'constR', 'log'])
@@ -455,13 +492,17 @@ def _fbd_gen(rng):
         else:
             wn = [200.0 * (1.0 + (0.01 if kind == 'constR' else 0.3)) ** i for i in range(N)]
         d.update(N=N, wn=wn, widths='derived', f=[rng.uniform(0, 1) for _ in range(N)], e=[rng.uniform(0.01, 0.2) for _ in range(N)])
+    if rng.random() < 0.4:
+        M = rng.randint(1, 3)
+        N = d['N']
+        d.update(dim=2, M=M, f=[[rng.uniform(0, 1) for _ in range(N)] for _ in range(M)], e=[[rng.uniform(0.01, 0.2) for _ in range(N)] for _ in range(M)])
     return d
 
 
 FBD = Unit('C05', FB + 'bindown', _fbd_params, pre=_fbd_pre, post=_fbd_post, invariants={0: _fbd_inv}, native_obj=_fbd_obj, native_call=_fbd_native, gen=_fbd_gen,
-           cases=[{'errors': e, 'widths': w} for e in (False, True) for w in ('given', 'derived')],
-           bounds=[dict(N=2, B=1)], safety=('index', 'sorted'), timeout_ms=30000, short='FluxBinner.bindown',
-           doc='1-D spectrum, native widths given (any order of the native points) or derived from an ascending grid by compute_bin_edges (by contract), with and without errors: for every target bin the mean of the native values in the searchsorted window '
+           cases=[{'errors': e, 'widths': w, 'dim': dm} for e in (False, True) for w in ('given', 'derived') for dm in (1, 2)],
+           bounds=[dict(N=2, B=1, M=1)], safety=('index', 'sorted'), timeout_ms=30000, short='FluxBinner.bindown',
+           doc='1-D spectra and 2-D stacks of spectra (spectral axis last), native widths given (any order of the native points) or derived from an ascending grid by compute_bin_edges (by contract), with and without errors: for every target bin the mean of the native values in the searchsorted window '
                'weighted by the overlap lengths (zero when the bin does not meet the native grid), any order of the native points')
 
 
